@@ -20,6 +20,7 @@ from __future__ import annotations
 
 import asyncio
 import itertools
+import json
 import random
 from fractions import Fraction as F
 
@@ -502,4 +503,210 @@ class Wiring(Family):
                f"{'mixed' if '0' in d and '1' in d else 'all-admit' if '1' in d else 'all-refuse'}"
 
 
-FAMILIES = [Small(), History(), Wiring()]
+# ----------------------------------------------------------------------------
+CROWDS = [3, 40, 130, 520, 1030, 2100, 4100, 10010, 16400]
+CROWDS_THOROUGH = [33000, 65600, 100010, 262200]
+YIELDS = (0, 0, 1, 2, 3, 3, 4, 5, 6, 9, 14, 20, 40)
+
+
+class Crowd(_Limiter):
+    """big tables and scheduling: an address's bursts around a CROWD of other distinct addresses (tens to tens of
+    thousands, one request each - whatever bounds, batches or caches the table has are crossed), and bursts that arrive
+    in a chosen event-loop iteration after a clean-up wake-up became due (before, in the middle of, or after the pass).
+    Direct oracle: the limiter oracle (window bound, allowance accounting, own history replayed alone) for the small
+    addresses; every crowd member's single request is decided by the configured capacity alone.  The model line is
+    built from the observed order of passes and requests (histories up to 5000 events)."""
+
+    name = "crowd"
+    quick_n = 1200
+    thorough_n = 6000
+    model_from_obs = True
+
+    FIXED = [
+        # drained, then a crowd, then back at once
+        {"cap": 2, "rate": [1, 1024], "retry": 30, "steps": [["t", 0], ["r", 1], ["r", 1], ["r", 1], ["t", 8], ["crowd", 1000, 10010], ["t", 16], ["r", 1], ["r", 1], ["r", 1]]},
+        # refilled and idle beyond the eviction age, a burst in the middle of the pass, another one right after it
+        {"cap": 2, "rate": [1, 8], "retry": 30, "steps": [["t", 0], ["r", 1], ["crowd", 1000, 1030], ["t", 7200], ["y", 3], ["g", [1, 1, 1]], ["y", 6], ["g", [1, 1, 1]]]},
+        {"cap": 1, "rate": [1, 2], "retry": 7, "steps": [["t", 0], ["crowd", 1000, 2100], ["r", 1], ["r", 2], ["t", 7200], ["y", 2], ["r", 1], ["y", 1], ["r", 1], ["y", 1], ["r", 1], ["r", 2], ["y", 9], ["r", 1], ["r", 2]]},
+    ]
+
+    def gen(self, rng, n):
+        k = 0
+        for c in self.share(self.FIXED):
+            k += 1
+            yield c
+        crowds = CROWDS + (CROWDS_THOROUGH if n >= 300 else [])   # per-shard n: 150 in the quick tier, 375 in the thorough tier
+        p8, a8 = self.period * 8, self.age * 8
+        while k < n:
+            k += 1
+            cap = rng.choice((1, 1, 2, 3, 5, 10))
+            num, den = rng.choice(RATES)
+            one = 8 * den // num if (8 * den) % num == 0 else 8
+            profile = rng.choice(("pressure", "sweep", "sweep", "mixed"))
+            steps, t, nxt = [["t", 0]], 0, [1000]
+
+            def burst(a, b):
+                if rng.random() < 0.4:
+                    steps.append(["g", [a] * b])
+                else:
+                    steps.extend(["r", a] for _ in range(b))
+
+            def crowd():
+                m = rng.choice(crowds)
+                steps.append(["crowd", nxt[0], m])
+                nxt[0] += m
+
+            if profile == "pressure":
+                burst(1, cap + rng.choice((0, 0, 1, 2)))
+                if rng.random() < 0.3:
+                    burst(2, rng.randint(1, cap + 1))
+                for _ in range(rng.choice((1, 1, 2))):
+                    t += rng.choice((0, 0, 1, 8, 80))
+                    steps.append(["t", t])
+                    crowd()
+                t += rng.choice((0, 0, 1, 8, one - 1 if one > 1 else 0, one, 2 * one))
+                steps.append(["t", t])
+                burst(1, cap + 1)
+                if rng.random() < 0.5:
+                    burst(2, cap + 1)
+            elif profile == "sweep":
+                order = ["b1", "crowd"] + (["b2"] if rng.random() < 0.4 else [])
+                rng.shuffle(order)
+                for o in order:
+                    if o == "crowd":
+                        crowd()
+                    else:
+                        burst(1 if o == "b1" else 2, rng.choice((1, cap, cap + 1)))
+                    if rng.random() < 0.3:
+                        t += rng.choice((1, 8, 80, 800))
+                        steps.append(["t", t])
+                # back when a clean-up wake-up is due (or a moment before / after), in a chosen loop iteration
+                t = max(t + 1, p8 * rng.choice((1, 2, 3, 3, 3, 4, 5)) + rng.choice((0, 0, 0, 0, -1, 1, 8)))
+                steps.append(["t", t])
+                for _ in range(rng.choice((2, 2, 3, 4))):
+                    y = rng.choice(YIELDS)
+                    if y:
+                        steps.append(["y", y])
+                    burst(rng.choice((1, 1, 1, 2)), rng.choice((1, cap, cap + 1)))
+                    if rng.random() < 0.2:
+                        t += rng.choice((1, 8, one))
+                        steps.append(["t", t])
+            else:
+                for _ in range(rng.randint(3, 14)):
+                    q = rng.random()
+                    if q < 0.35:
+                        burst(rng.choice((1, 1, 2, 3)), rng.randint(1, cap + 1))
+                    elif q < 0.5:
+                        crowd()
+                    elif q < 0.65:
+                        steps.append(["y", rng.choice(YIELDS) or 1])
+                    else:
+                        t += rng.choice((0, 1, 8, one, 80, p8 - t % p8 if t % p8 else p8, p8 + 8, a8 + 8, rng.randint(1, 3 * p8)))
+                        steps.append(["t", t])
+            case = {"cap": cap, "rate": [num, den], "retry": rng.choice((30, 30, 1, 0, 600)), "steps": steps, "profile": profile}
+            if rng.random() < 0.25:
+                case["t0"] = rng.choice((8, 1000 * 8 + 1, 123456 * 8 + 5))
+            case["solo"] = rng.randint(0, 2)
+            yield case
+
+    # -- real code ----------------------------------------------------------------------------
+    def run_steps(self, case, steps):
+        loop = self.loop
+        rate = case["rate"][0] / case["rate"][1]
+        with self.clock.patched_time(lambda: loop.vt):
+            return loop.run_until_complete(self.clock.run_schedule(loop, case["cap"], rate, case["retry"], case.get("t0", 0), steps,
+                                                                   lambda a: ip_text(case, a), start_cleanup=case.get("cleanup", True)))
+
+    def impl(self, case):
+        obs = self.run_steps(case, case["steps"])
+        small = sorted(set(obs["who"]))
+        if small:
+            a = small[case.get("solo", 0) % len(small)]
+            own = []
+            for st in case["steps"]:
+                if st[0] in ("t", "y"):
+                    own.append(st)
+                elif st[0] == "r" and st[1] == a:
+                    own.append(st)
+                elif st[0] == "g" and a in st[1]:
+                    own.append(["g", [x for x in st[1] if x == a]])
+            obs["solo"] = [a, self.run_steps(case, own)["dec"]]
+        return obs
+
+    # -- model (from the observed order of events) -------------------------------------------------
+    @staticmethod
+    def layout(case):
+        """number of decisions each step contributes, in order"""
+        return [(st[0], 1 if st[0] == "r" else len(st[1]) if st[0] == "g" else st[2]) for st in case["steps"] if st[0] in ("r", "g", "crowd")]
+
+    def model_obs(self, case, obs):
+        if not 0 < sum(k for _, k in self.layout(case)) <= 5000:
+            return None
+        evs = []
+        for e in obs["trace"]:
+            if e[0] == "c":
+                evs.append(f"c@{rat(e[1], 8) if e[1] == int(e[1]) else rat(F(e[1]) / 8)}")
+            elif e[0] == "r":
+                evs.append(f"{e[1]}@{rat(e[2], 8)}")
+            else:
+                evs.extend(f"{i}@{rat(e[3], 8)}" for i in range(e[1], e[1] + e[2]))
+        return f"bucket {case['cap']} {rat(*case['rate'])} {self.age} {case['retry']} " + " ".join(evs)
+
+    def expect(self, case, out):
+        assert out.startswith("ok "), out
+        w = out.split(" ")
+        lay = self.layout(case)
+        full = w[1] if lay else ""
+        dec, crowd, pos = "", [], 0
+        for kind, k in lay:
+            part = full[pos:pos + k]
+            pos += k
+            if kind == "crowd":
+                crowd.append([part.count("1"), part.count("0")])
+            else:
+                dec += part
+        return {"dec": dec, "crowd": crowd, "lines": [core.uncps(w[-1])] if "0" in full else []}
+
+    def same(self, expected, obs):
+        return all(expected[k] == obs[k] for k in ("dec", "crowd", "lines"))
+
+    # -- direct oracle ------------------------------------------------------------------------
+    def oracle(self, case, obs):
+        cap = case["cap"]
+        for st, (adm, ref) in zip([s for s in case["steps"] if s[0] == "crowd"], obs["crowd"]):
+            if cap >= 1 and ref:
+                return ("refuse-with-allowance", f"{ref} of {st[2]} addresses that had never sent a request were refused on their first request (capacity {cap})")
+            if cap < 1 and adm:
+                return ("admit-exhausted", f"{adm} of {st[2]} first requests admitted with capacity {cap}")
+        hist = {"cap": cap, "rate": case["rate"], "retry": case["retry"], "evs": [[a, t] for a, t in zip(obs["who"], obs["times"])]}
+        v = limiter_oracle(hist, {k: obs[k] for k in ("dec", "lines", "solo") if k in obs})
+        if v:
+            return (v[0], v[1] + f" [steps: {json.dumps(case['steps'])[:700]}; clean-up passes and requests in the order they happened: {json.dumps([e for e in obs['trace'] if e[0] != 'r' or e[1] == 1][:40])}]")
+        return None
+
+    def key(self, case, obs):
+        big = max([s[2] for s in case["steps"] if s[0] == "crowd"] or [0])
+        size = "crowd=0" if not big else "crowd<=1k" if big <= 1000 else "crowd<=10k" if big <= 10000 else "crowd<=100k" if big <= 100000 else "crowd>100k"
+        due = any(s[0] == "t" and s[1] and s[1] % (self.period * 8) == 0 for s in case["steps"]) and any(s[0] == "y" for s in case["steps"])
+        passes = sum(1 for e in obs["trace"] if e[0] == "c")
+        return f"{case.get('profile', 'fixed')}:{size}:{'burst-at-due-wake-up' if due else 'plain'}:passes={min(passes, 3)}{'+' if passes > 3 else ''}:{'refusals' if '0' in obs['dec'] else 'no-refusal'}"
+
+    def shrink(self, case, bad):
+        cur, budget, changed = case, 40, True
+        while changed and budget > 0:
+            changed = False
+            for i in range(len(cur["steps"])):
+                cand = dict(cur, steps=cur["steps"][:i] + cur["steps"][i + 1:])
+                budget -= 1
+                if budget <= 0:
+                    break
+                try:
+                    if cand["steps"] and bad(cand):
+                        cur, changed = cand, True
+                        break
+                except Exception:  # noqa: BLE001
+                    pass
+        return cur
+
+
+FAMILIES = [Small(), History(), Wiring(), Crowd()]
